@@ -195,11 +195,23 @@ func checkC14(w *World, r *Report) {
 					continue
 				}
 				hasA, hasB := false, false
+				// the operand itself, or its element slice obtained with the accessor (GetSlice)
+				from := func(arg, op ssa.Value) bool {
+					if arg == op {
+						return true
+					}
+					if ex, ok := arg.(*ssa.Extract); ok && ex.Index == 0 {
+						if gc, ok := ex.Tuple.(*ssa.Call); ok && len(gc.Call.Args) == 1 && gc.Call.Args[0] == op && gc.Call.StaticCallee() != nil && len(e.accessorCases(gc.Call.StaticCallee())) > 0 {
+							return true
+						}
+					}
+					return false
+				}
 				for _, arg := range c.Call.Args {
-					if arg == a {
+					if from(arg, a) {
 						hasA = true
 					}
-					if arg == bpar {
+					if from(arg, bpar) {
 						hasB = true
 					}
 				}
@@ -575,7 +587,7 @@ func checkC13(w *World, r *Report) {
 			r.check(ok, "C13.domain", f, "binder adapter", f.Pos(), "starts with a deferred recover handler", "a registered builtin can panic into the host instead of returning an error")
 		}
 	}
-	r.floor("C13.domain", "binder adapters", adapters, 6)
+	r.floor("C13.domain", "binder adapters", adapters, 2)
 	// maplookup
 	for _, name := range []string{"contains_Q", "rename_keys"} {
 		fn := w.Fn("lib/core", name)
@@ -922,7 +934,14 @@ func checkC17(w *World, r *Report) {
 	} else {
 		okGuard := false
 		var pat string
-		for _, b := range rs.Blocks {
+		var rsBlocks []*ssa.BasicBlock
+		for _, f := range w.withPkgHelpers(rs) {
+			if f == w.Fn("reader", "read_form") || f == w.Fn("reader", "tokenize") {
+				continue
+			}
+			rsBlocks = append(rsBlocks, f.Blocks...)
+		}
+		for _, b := range rsBlocks {
 			for _, in := range b.Instrs {
 				c, ok := in.(*ssa.Call)
 				if !ok || c.Call.StaticCallee() == nil || c.Call.StaticCallee().Name() != "FindStringSubmatch" {
@@ -935,14 +954,8 @@ func checkC17(w *World, r *Report) {
 				}
 				if ld, ok := c.Call.Args[0].(*ssa.UnOp); ok {
 					if g, ok := ld.X.(*ssa.Global); ok {
-						for _, ib := range g.Pkg.Func("init").Blocks {
-							for _, ii := range ib.Instrs {
-								if st, ok := ii.(*ssa.Store); ok && st.Addr == ssa.Value(g) {
-									if mc, ok := st.Val.(*ssa.Call); ok && len(mc.Call.Args) == 1 {
-										pat, _ = constString(mc.Call.Args[0])
-									}
-								}
-							}
+						if p, ok := w.globalRegexPattern(g); ok {
+							pat = p
 						}
 					}
 				}
@@ -1054,7 +1067,8 @@ func checkC17(w *World, r *Report) {
 					}
 				}
 				if fa, ok := c.Call.Args[1].(*ssa.FieldAddr); ok && fieldName(fa.X.Type(), fa.Field) == "Cursor" {
-					if _, isPhi := fa.X.(*ssa.Phi); isPhi {
+					// the loop's current token: what peek returned last (possibly merged over the back edge)
+					if isPeekResult(fa.X, map[ssa.Value]bool{}) {
 						argOK = true
 					}
 				}
@@ -1619,57 +1633,113 @@ func checkC20(w *World, r *Report) {
 	}
 	_ = numOut
 	nAd := 0
-	for k, reg := range outReg {
-		for b := range reg {
-			for _, in := range b.Instrs {
-				mc, ok := in.(*ssa.MakeClosure)
-				if !ok {
-					continue
+	extSigT := w.ByPath[modPath+"/types"].Types.Scope().Lookup("ExternalCall")
+	regionOfBlock := func(b *ssa.BasicBlock) (int64, bool) {
+		for k, reg := range outReg {
+			if reg[b] {
+				return k, true
+			}
+		}
+		return 0, false
+	}
+	for _, b := range callFn.Blocks {
+		for _, in := range b.Instrs {
+			mc, ok := in.(*ssa.MakeClosure)
+			if !ok {
+				continue
+			}
+			ad := mc.Fn.(*ssa.Function)
+			if extSigT == nil || !sameParamsResults(ad.Signature, extSigT.Type().Underlying().(*types.Signature)) {
+				continue
+			}
+			nAd++
+			// context branch: which edge of the context test dominates the creation of the adapter
+			ctxBranch := -1
+			for _, d := range callFn.Blocks {
+				if iff := blockIf(d); iff != nil {
+					for i := 0; i < 2; i++ {
+						if edgeDominates(d, i, b) && derivesFromImplements(e, iff.Cond, 0) {
+							ctxBranch = i
+						}
+					}
 				}
-				ad := mc.Fn.(*ssa.Function)
-				nAd++
-				// context branch: which edge of the contextRequired test dominates b
-				ctxBranch := -1
-				for _, d := range callFn.Blocks {
-					if iff := blockIf(d); iff != nil && reg[d] {
-						for i := 0; i < 2; i++ {
-							if edgeDominates(d, i, b) && derivesFromImplements(e, iff.Cond, 0) {
-								ctxBranch = i
+			}
+			usesCtx := callsFn(ad, argsCtx)
+			usesPlain := callsFn(ad, args)
+			okBuilder := (ctxBranch == 0 && usesCtx && !usesPlain) || (ctxBranch == 1 && usesPlain && !usesCtx)
+			r.check(okBuilder, "C20.siblings", ad, "argument builder", ad.Pos(), "matches the context test", "the adapter built on the "+[]string{"context", "no-context", "?"}[map[int]int{0: 0, 1: 1, -1: 2}[ctxBranch]]+" branch uses the wrong argument builder")
+			if usesCtx {
+				for _, c := range staticCallsTo(ad, argsCtx) {
+					r.check(c.Call.Args[0] == ssa.Value(ad.Params[0]), "C20.siblings", ad, "context handed to the builder", c.Pos(), "the adapter's own context parameter", "the builder does not receive the evaluation's context")
+				}
+			}
+			// result adapter: called directly (then the adapter is created in the region of the matching result
+			// count) or through a captured variable (then every assignment of that variable happens in the region
+			// of the matching result count)
+			okRes, detail := true, ""
+			direct := 0
+			for kk, f := range adapterFor {
+				if callsFn(ad, f) {
+					direct++
+					if k, in := regionOfBlock(b); !in || k != kk {
+						okRes, detail = false, f.Name()+" used outside the region of its result count"
+					}
+				}
+			}
+			if direct == 0 {
+				found := false
+				for _, ab := range ad.Blocks {
+					for _, ain := range ab.Instrs {
+						c, ok := ain.(*ssa.Call)
+						if !ok || c.Call.StaticCallee() != nil || c.Call.IsInvoke() {
+							continue
+						}
+						ld, ok := c.Call.Value.(*ssa.UnOp)
+						if !ok {
+							continue
+						}
+						cell := cellOf(ld.X)
+						if cell == nil {
+							continue
+						}
+						stores := e.storesTo(cell)
+						for _, st := range stores {
+							f, isFn := st.Val.(*ssa.Function)
+							if !isFn {
+								continue
+							}
+							for kk, want := range adapterFor {
+								if f == want {
+									found = true
+									if k, in := regionOfBlock(st.Block()); !in || k != kk {
+										okRes, detail = false, f.Name()+" selected outside the region of its result count"
+									}
+								}
 							}
 						}
 					}
 				}
-				usesCtx := callsFn(ad, argsCtx)
-				usesPlain := callsFn(ad, args)
-				okBuilder := (ctxBranch == 0 && usesCtx && !usesPlain) || (ctxBranch == 1 && usesPlain && !usesCtx)
-				r.check(okBuilder, "C20.siblings", ad, fmt.Sprintf("argument builder (NumOut=%d)", k), ad.Pos(), "matches the context test", "the adapter built on the "+[]string{"context", "no-context", "?"}[map[int]int{0: 0, 1: 1, -1: 2}[ctxBranch]]+" branch uses the wrong argument builder")
-				if usesCtx {
-					for _, c := range staticCallsTo(ad, argsCtx) {
-						r.check(c.Call.Args[0] == ssa.Value(ad.Params[0]), "C20.siblings", ad, "context handed to the builder", c.Pos(), "the adapter's own context parameter", "the builder does not receive the evaluation's context")
-					}
+				if !found {
+					okRes, detail = false, "no result adapter applied"
 				}
-				okRes := true
-				for kk, f := range adapterFor {
-					if callsFn(ad, f) != (kk == k) {
-						okRes = false
-					}
-				}
-				r.check(okRes, "C20.siblings", ad, fmt.Sprintf("result adapter (NumOut=%d)", k), ad.Pos(), adapterFor[k].Name(), "the result adapter does not match the number of results")
-				h, isB := w.barrierOf(ad)
-				okRec := isB && h == recov
-				if okRec {
-					for _, in2 := range ad.Blocks[0].Instrs {
-						if d, ok := in2.(*ssa.Defer); ok {
-							al, isAl := d.Call.Args[len(d.Call.Args)-1].(*ssa.Alloc)
-							okRec = isAl && al.Parent() == ad && al.Comment == "err"
-						}
-					}
-				}
-				r.check(okRec, "C20.siblings", ad, fmt.Sprintf("recover barrier (NumOut=%d)", k), ad.Pos(), "defer _recover(name, &err) first", "the adapter does not start with defer _recover on its own error result: a panic of the bound function (or of the count check) escapes")
+			} else if direct > 1 {
+				okRes, detail = false, "several result adapters in one closure"
 			}
+			r.check(okRes, "C20.siblings", ad, "result adapter", ad.Pos(), "the adapter for the function's number of results", "the result adapter does not match the number of results: "+detail)
+			h, isB := w.barrierOf(ad)
+			okRec := isB && h == recov
+			if okRec {
+				for _, in2 := range ad.Blocks[0].Instrs {
+					if d, ok := in2.(*ssa.Defer); ok {
+						al, isAl := d.Call.Args[len(d.Call.Args)-1].(*ssa.Alloc)
+						okRec = isAl && al.Parent() == ad && al.Comment == "err"
+					}
+				}
+			}
+			r.check(okRec, "C20.siblings", ad, "recover barrier", ad.Pos(), "defer _recover(name, &err) first", "the adapter does not start with defer _recover on its own error result: a panic of the bound function (or of the count check) escapes")
 		}
 	}
-	r.floor("C20.siblings", "adapter closures", nAd, 6)
+	r.floor("C20.siblings", "adapter closures", nAd, 2)
 	// units
 	incMin, incMax := false, false
 	variadic := ssa.Value(callFn.Params[len(callFn.Params)-1])
@@ -1723,7 +1793,7 @@ func checkC20(w *World, r *Report) {
 			return nil, false
 		}
 		k, ok := bo.Y.(*ssa.Const)
-		if !ok || k.Value == nil || k.Int64() != 1 {
+		if !ok || k.Value == nil || k.Value.Kind() != constant.Int || k.Int64() != 1 {
 			return nil, false
 		}
 		return bo, true
@@ -2008,7 +2078,11 @@ func checkC20(w *World, r *Report) {
 	}
 	// name
 	okLower, okRepl := false, false
-	for _, b := range callFn.Blocks {
+	var nameBlocks []*ssa.BasicBlock
+	for _, f := range w.withPkgHelpers(callFn) {
+		nameBlocks = append(nameBlocks, f.Blocks...)
+	}
+	for _, b := range nameBlocks {
 		for _, in := range b.Instrs {
 			if c, ok := in.(*ssa.Call); ok {
 				if isStringsFn(c, "ToLower") {
@@ -2027,8 +2101,11 @@ func checkC20(w *World, r *Report) {
 	r.check(okLower && okRepl, "C20.name", callFn, "name derivation", callFn.Pos(), "lower-case, _ replaced by -", "the registered name is not derived as documented")
 	aud2 := newAudit(w, e, r, "C20.name")
 	aud2.exempt = exemptionsC20
-	aud2.closure = []*ssa.Function{callFn}
-	aud2.inClos[callFn] = true
+	aud2.closure = nil
+	for _, f := range w.withPkgHelpers(callFn) {
+		aud2.closure = append(aud2.closure, f)
+		aud2.inClos[f] = true
+	}
 	// only slices: collect via a filtered run
 	before := len(r.Obl)
 	aud2.run()
@@ -2757,4 +2834,25 @@ func kindRule(w *World, r *Report, e *Engine, rule string) {
 		r.check(len(extra) == 0, rule, fn, "result kinds", fn.Pos(), "within {"+confirmedKinds[name]+"}", name+" can now return "+strings.Join(extra, ", ")+" (any = a value whose kind is decided by the caller), outside the confirmed kinds {"+confirmedKinds[name]+"}")
 	}
 	r.floor(rule, "collection builtins with a confirmed result kind", n, 15)
+}
+
+
+// isPeekResult: v is the result of the token reader's peek, or a merge of such results.
+func isPeekResult(v ssa.Value, seen map[ssa.Value]bool) bool {
+	if seen[v] {
+		return true
+	}
+	seen[v] = true
+	switch x := v.(type) {
+	case *ssa.Call:
+		return x.Call.StaticCallee() != nil && x.Call.StaticCallee().Name() == "peek"
+	case *ssa.Phi:
+		for _, op := range x.Edges {
+			if !isPeekResult(op, seen) {
+				return false
+			}
+		}
+		return len(x.Edges) > 0
+	}
+	return false
 }
